@@ -184,6 +184,42 @@ def generate(ws, gen_dir):
     return report
 
 
+def _enum_variants(text, name):
+    m = re.search(r"pub enum " + name + r"\s*\{(.*?)\n\}", text, re.S)
+    if not m:
+        return None
+    body = re.sub(r"//[^\n]*", "", m.group(1))
+    body = re.sub(r"#\[[^\]]*\]", "", body)
+    return [v.group(1) for v in re.finditer(r"(?m)^\s*(\w+)\s*(?:\([^)]*\))?\s*,", body)]
+
+
 def check_completeness(ws, hs):
+    """The harnesses enumerate roles / operations / types from their own tables; compare those
+    tables with the enums of /repo's current lang/syntax/src/lib.rs."""
     msgs = []
+    props = {h.get("property") for h in hs}
+    if not (props & {"C05", "C06"}):
+        return msgs
+    src = open(os.path.join(ws, "lang/syntax/src/lib.rs"), encoding="utf-8").read()
+    common = open(os.path.join(VERIF, "harness", "common_roles.rs"), encoding="utf-8").read()
+    statics = open(os.path.join(VERIF, "harness", "statics_builtin.rs"), encoding="utf-8").read()
+    expect = {
+        "BuiltinValueRole": set(re.findall(r"R::(\w+)", common)) | {"Integer", "Float"},
+        "IntegerType": set(re.findall(r"IntegerType::(\w+)", common)),
+        "IntegerOperation": set(re.findall(r"IntegerOperation::(\w+)", common)),
+        "FloatOperation": set(re.findall(r"FloatOperation::(\w+)", common)),
+        "FloatType": {"Float32", "Float64"},
+    }
+    for enum, mine in expect.items():
+        theirs = _enum_variants(src, enum)
+        if theirs is None:
+            msgs.append(f"enum {enum} not found in lang/syntax/src/lib.rs")
+        elif set(theirs) != mine:
+            msgs.append(f"enum {enum} changed: source has {sorted(set(theirs) - mine)} extra, "
+                        f"harness tables have {sorted(mine - set(theirs))} extra")
+    if "C06" in props:
+        dispatched = set(re.findall(r"check_role\(BuiltinValueRole::(\w+)\)", statics))
+        missing = expect["BuiltinValueRole"] - {"Integer", "Float"} - dispatched
+        if missing:
+            msgs.append(f"statics_builtin.rs does not dispatch roles {sorted(missing)}")
     return msgs
